@@ -113,7 +113,7 @@ theorem C03_tuple (s fuel : Nat) : KindFree (Impl.tuple s fuel) := by
 theorem C03_sorted (fn : Option Nat) (reverse : Bool) (s fuel : Nat) : KindFree (Impl.sorted fn reverse s fuel) := by
   unfold Impl.sorted; kfree [Std.kf_collectKeyed fn s fuel, kf_liftExc]
 theorem C03_nlargest_nsmallest (largest : Bool) (n : Nat) (fn : Option Nat) (s fuel : Nat) :
-    KindFree (Impl.nBest largest n fn s fuel) := kf_scopedIter s (Std.kf_nBest largest n fn s fuel)
+    KindFree (Impl.nBest largest n fn s fuel) := kf_scopedIter s (Std.kf_nBestAlgo ⟨largest, false⟩ n fn s fuel)
 
 /-! Non-vacuity: the same script as a sync iterator and as an async generator. -/
 private def wk : World :=
